@@ -489,6 +489,22 @@ def c02(ctx: Ctx) -> None:
                       f'{FILE}:{o.node.line}', s.locked is True,
                       'descriptor set on this path', 'success reported although the OS lock is not (known to be) held',
                       witness=s.trace, construct=construct_key(r.acquire.qualname, 'return True without OS lock'))
+        # an unsuccessful acquire() leaves the in-process lock as it found it: a clean-up that gives back a level this
+        # activation never took (the acquire itself raised) releases the lock of the thread that is inside
+        seen_f = set()
+        for o in outs:
+            if o.kind == 'return' and _ret_const(o) is True:
+                continue
+            s = o.state
+            keep = s.v['DEPTH'] == Lin(1, 0) if s.c_known is None else s.v['DEPTH'] == Lin(0, s.c_known)
+            key = (o.kind, repr(s.v['DEPTH']))
+            if keep or key in seen_f:
+                continue
+            seen_f.add(key)
+            ctx.violation('C02-R1', f'acquire() fails ({o.kind}) at line {o.node.line} with DEPTH={s.v["DEPTH"]!r}', f'{FILE}:{o.node.line}',
+                          'a failed acquire() changes the depth of the in-process lock: it gives back a level it never took (the holder\'s), or keeps one - '
+                          'the next acquire() of another thread takes the is_locked fast path while the holder is inside',
+                          witness=s.trace, construct=construct_key(r.acquire.qualname, 'failed acquire changes TL depth', o.kind, repr(s.v['DEPTH'])))
     except Undecided as e:
         ctx.undecided('C02-R1', 'acquire()', f'{FILE}:{r.acquire.lineno}', str(e))
     # R3: writers of FD
